@@ -721,6 +721,10 @@ func finish(spec *Spec, tier string, seed int, evidencePath string, start time.T
 		}
 		if prev, seen := replayedKeys[nv.v.Key]; seen && nv.r.gspec.NativeReplay && !noReplay {
 			status = "native-replay: same key reproduced in " + prev
+		} else if nv.r.gspec.NativeReplay && !noReplay && (nv.v.Kind == "unwind" || nv.v.Kind == "deadlock") {
+			// non-termination / blocked-for-ever cannot fail a native test run (it would hang or be cut off): the engine
+			// trace is the artefact
+			status = "native-replay: not applicable (non-termination), engine trace only"
 		} else if nv.r.gspec.NativeReplay && !noReplay {
 			ok, out := nativeReplay(nv.r.gspec, nv.in, nv.v, dir, nv.r.realFiles)
 			os.WriteFile(filepath.Join(dir, "native.log"), []byte(out), 0o644)
